@@ -365,13 +365,32 @@ func evalSm2enc(args []string) string {
 		return "bad-op"
 	}
 	pub := pubFromXY(x, y)
-	var ct []byte
-	var err error
-	if args[2] == "asn1" {
-		ct, err = sm2.EncryptAsn1(pub, msg, shortReads(&fixedRand{rnd}, rnd))
-	} else {
-		ct, err = sm2.Encrypt(pub, msg, shortReads(&fixedRand{rnd}, rnd), modeOf(args[2]))
+	enc := func(m []byte) ([]byte, error) {
+		if args[2] == "asn1" {
+			return sm2.EncryptAsn1(pub, m, shortReads(&fixedRand{append([]byte{}, rnd...)}, rnd))
+		}
+		return sm2.Encrypt(pub, m, shortReads(&fixedRand{append([]byte{}, rnd...)}, rnd), modeOf(args[2]))
 	}
+	if len(msg) == 0 {
+		// every way of writing the empty plaintext: nil, empty non-nil, an empty slice of a larger buffer
+		buf := make([]byte, 8)
+		var res []string
+		for _, m := range [][]byte{nil, {}, buf[:0], buf[3:3]} {
+			ct, err := enc(m)
+			if err != nil {
+				res = append(res, "err")
+			} else {
+				res = append(res, hx(ct))
+			}
+		}
+		for _, x := range res[1:] {
+			if x != res[0] {
+				return "ORACLE-FAIL:empty-plaintext-forms-differ:" + strings.Join(res, "/")
+			}
+		}
+		return res[0]
+	}
+	ct, err := enc(msg)
 	if err != nil {
 		return "err"
 	}
